@@ -32,32 +32,32 @@ CLAIMED = {
         note="Side condition of the property (the target has YieldRefs left for every request) is built into the scenario; trusted: harness/c14_cor.go.",
         ref="DESIGN.md §5.14"),
     "C16": dict(
-        text="Seeded schedule search over PMap's producer/worker/closer goroutines with lists of length 0..16, every FixedPool class, both order modes and data-dependent virtual durations of f (including later-elements-finish-first); oracles: result == Map / permutation, f applied exactly once per element, gauge <= min(FixedPool,len), returns after the last application, terminates.",
+        text="Seeded schedule search over PMap's producer/worker/closer goroutines with lists of length 0..16, every FixedPool class, both order modes and data-dependent virtual durations of f (including later-elements-finish-first); oracles: result == Map / permutation, f applied exactly once per element, gauge <= min(FixedPool,len), returns after the last application, terminates; in a third of the runs further PMap calls (empty and non-empty lists, sequentially before and concurrently beside the main call) share the caller's option object, each call judged on its own.",
         note="Trusted: harness/c16_pmap.go; termination is a bounded-liveness verdict under fair scheduling.",
         ref="DESIGN.md §5.16"),
     "C17": dict(
-        text="Seeded definitions (constructor x template x PathParam x body x DefaultHeader) x injected fault (serializer, transport, torn/empty/malformed body, nil deserializer result, missing file) x 0..6 evaluations via Eval or Subscribe, over the real net/http client with a stub RoundTripper; reference request builder for method/URL/header/body; lazy, one request per evaluation, header copy, decoding, failure => Err never panic.",
+        text="Seeded definitions (constructor x template x PathParam x body x DefaultHeader) x injected fault (serializer, transport, torn/empty/malformed body, nil deserializer result, missing file) x 0..6 evaluations via Eval or Subscribe, over the real net/http client with a stub RoundTripper; reference request builder for method/URL/header/body; lazy (also when the API's MonadIO is composed with FlatMap), one request per evaluation, header copy, decoding, failure => Err never panic.",
         note="Sequential property: the simulation contributes the transport/body/serializer seams, fault injection, replay and shrinking; Go map iteration order (multipart part order, pre-fix path-parameter substitution) cannot be seeded, so multipart bodies are compared as parsed fields and replays of map-order-dependent failures are retried; trusted: harness/c17_api.go.",
         ref="DESIGN.md §5.17"),
     "C18": dict(
         category="fault_enumeration",
-        text="Seeded histories over Add/Remove/ClearInterceptor, SetHTTPClient and requests of every verb (and via SimpleAPI) with 0..6 interceptor objects and 1..3 clients; at every request point every position of a failing interceptor is enumerated; list-model oracle: chain = model list in order, each once, then transport once; header changes reach the transport; error aborts and surfaces; no re-entrancy.",
+        text="Seeded histories over Add/Remove/ClearInterceptor, SetHTTPClient and requests of every verb (and via SimpleAPI) with 0..6 interceptor objects and 1..3 clients; at every request point every position of a failing interceptor is enumerated; list-model oracle: chain = model list in order, each once, then transport once; header changes reach the transport and nothing but what the registered interceptors wrote into this request does (per-interceptor value counts; APIs with and without a default header); error aborts and surfaces; no re-entrancy.",
         note="Histories are sampled, failing positions are enumerated exhaustively per request point; sharing one http.Client between two SimpleHTTP objects is not exercised; trusted: harness/c18_interceptors.go.",
         ref="DESIGN.md §5.18"),
     "C20": dict(
-        text="CurryDef clause only: seeded schedule search over 1..6 threads calling Call with unique argument blocks and MarkDone from inside fn or from another thread; prefix-chain oracle over the recorded invocations (whole blocks, real-time order, at most/exactly one invocation per Call, nothing after MarkDone, Result).",
-        note="Compose/Pipe, CurryParamN/MakeVariadic*, Trampoline, MatchFor/Either and NewCompData are pure functions and are NOT decided by this check: a change that only breaks those clauses is invisible to it (honest partial claim, DESIGN.md §5.20); trusted: harness/c20_curry.go.",
+        text="CurryDef clause (the only one with a schedule in it): seeded schedule search over 1..6 threads calling Call with unique argument blocks and MarkDone from inside fn or from another thread; prefix-chain oracle over the recorded invocations (whole blocks, real-time order, at most/exactly one invocation per Call, nothing after MarkDone, Result). The pure clauses (Compose/Pipe incl. regrouping and caller-owned slices, CurryParamN/MakeVariadic* adapters, Trampoline, MatchFor/Either first-match over pattern permutations x probe values, NewCompData) ride on the same scenario tape as seeded input generation against small reference implementations (harness/c20_pure.go), with composed functions also evaluated from two simulated threads.",
+        note="For the pure clauses the simulator decides nothing: that part is seeded input generation (a third of the runs), stated as such (DESIGN.md §5.20); expectations for typed nil pointers against sum-type patterns are deliberately not asserted; trusted: harness/c20_curry.go, harness/c20_pure.go (reference compose, acceptance table of the five pattern kinds).",
         ref="DESIGN.md §5.20"),
     "C07": dict(
-        text="Seeded schedule/fault search over producers x consumers x loader/free-node goroutines of the real Buffered/ChannelQueue on a fake clock, configurations drawn per run, fair settle phase; history oracles for invented/duplicate/lost, real-time FIFO, bound, non-blocking, error necessity, timeout honesty, conservation and nothing-stranded. Evidence bounded by explored schedules.",
-        note="Oracles flag only definite violations from invoke/return stamps; the nothing-stranded clause is evaluated for capacity>=1 under fair scheduling up to a bounded number of retrieval attempts; statement-granular SC interleavings; trusted: synctest fake clock, instrumenter, harness/c07_queues.go.",
+        text="Seeded schedule/fault search over producers x consumers x loader/free-node goroutines of the real Buffered/ChannelQueue on a fake clock, configurations drawn per run, fair settle phase; history oracles for invented/duplicate/lost, real-time FIFO, bound, non-blocking, error necessity, timeout honesty, conservation and nothing-stranded; every recorded history (capacity>=1, <=80 calls) is additionally checked for linearizability with porcupine against a nondeterministic reference queue (FIFO sequence split into a channel part <= capacity and an overflow part <= buffer maximum, loader moves as internal steps). Evidence bounded by explored schedules.",
+        note="Oracles flag only definite violations from invoke/return stamps; the nothing-stranded clause is evaluated for capacity>=1 under fair scheduling up to a bounded number of retrieval attempts; statement-granular SC interleavings; porcupine Unknown (timeout) is inconclusive and never reported, Count and unbuffered channels are outside the reference model; trusted: porcupine v1.3.0, synctest fake clock, instrumenter, harness/c07_queues.go.",
         ref="DESIGN.md §5.7"),
     "C08": dict(
         text="Seeded schedule search over 1..16 producers x 1..16 consumers on ConcurrentQueue/ConcurrentStack wrapping the real LinkedListQueue (statement-level preemption inside it) or a deliberately racy harness queue; recorded histories checked with porcupine against a sequential FIFO/LIFO model plus direct duplicate/lost/invented checks.",
         note="Linearizability is decided per recorded history (<=~40 operations, porcupine timeout => inconclusive, never reported); coverage of schedules is sampled; trusted: porcupine v1.3.0, instrumenter, harness/c08_concurrent.go.",
         ref="DESIGN.md §5.8"),
     "C09": dict(
-        text="Seeded schedule/fault search over the real DefaultWorkerPool + job queue + spawn loop + workers + timers on a fake clock with panicking/slow jobs and concurrent submitters within the property's configuration quantifier; oracles: rejected-never-runs, at-most-once, exactly-once by a fair virtual-time horizon, concurrency gauge, panic-handler log, error necessity, post-close error.",
+        text="Seeded schedule/fault search over the real DefaultWorkerPool + job queue + spawn loop + workers + timers on a fake clock with panicking/slow jobs and concurrent submitters within the property's configuration quantifier; oracles: rejected-never-runs, at-most-once, exactly-once by a fair virtual-time horizon, concurrency gauge, panic-handler log (also after SetPanicHandler replaced the handler while workers exist), error necessity, post-close error.",
         note="Exactly-once is a bounded-liveness verdict: fair round-robin settle phase, horizon 2000 time units above every configured interval; trusted: synctest fake clock, instrumenter, harness/c09_pool.go.",
         ref="DESIGN.md §5.9"),
     "C15": dict(
